@@ -1,5 +1,6 @@
 (* C11 - How a record is presented does not change the arrays. *)
-From Verif Require Import Lookup Lookup_proofs Builder_proofs.
+From Verif Require Import Lookup Lookup_proofs Builder_proofs Refine_proofs Order_proofs.
+Require Import Permutation.
 
 (* the positional guess of the field-name cache never overrides the name index: whatever the cache
    holds (any interleaving of records from different Rust types, equal names at different
@@ -16,6 +17,27 @@ Proof. exact lookup_sound. Qed.
 
 Theorem C11_fresh_cache : forall World names n, CacheInv World names (repeat None n).
 Proof. exact CacheInv_empty. Qed.
+
+(* whatever order the fields of a record arrive in, the builder reaches the same state - hence emits
+   the same arrays, byte for byte - for every builder and at any nesting depth; a record that is
+   accepted in one order is accepted in every order (any permutation, extra and absent fields
+   included) *)
+Theorem C11_field_order_irrelevant : forall fields fields' b b', Permutation fields fields' ->
+  (push (VStruct fields) b = Ok b' <-> push (VStruct fields') b = Ok b').
+Proof. exact push_struct_perm_iff. Qed.
+
+(* a tuple in schema order is exactly the struct with the schema's field names (outcomes equal,
+   errors included), when the names of the struct are unique *)
+Theorem C11_tuple_is_struct : forall l len v cs, NoDup (names_of cs) ->
+  push (VTuple l) (BdStruct len v cs) = push (VStruct (combine (names_of cs) l)) (BdStruct len v cs).
+Proof. exact push_tuple_is_struct. Qed.
+
+(* what the record denotes does not depend on its presentation either (specification side): the
+   logical value appended is the one assembled by field name - C01_push_refines *)
+Theorem C11_presentation_denotes_record : forall v f b b' lvs,
+  shape f b -> WfB b -> content b = Some lvs -> push v b = Ok b' ->
+  exists lv, interp f v = IOk lv /\ content b' = Some (lvs ++ [lv]) /\ shape f b'.
+Proof. exact push_sound. Qed.
 
 (* a map with string keys behaves exactly like the struct with the same entries *)
 Theorem C11_map_is_struct : forall fields b,
@@ -35,5 +57,7 @@ Example C11_absent :
   = Ok [({| m_name := b "a"; m_nullable := true |}, BdPrim I32 (Some [0%N]) [0%Z])].
 Proof. split; vm_compute; reflexivity. Qed.
 
+Print Assumptions C11_field_order_irrelevant.
+Print Assumptions C11_tuple_is_struct.
 Print Assumptions C11_lookup_sound.
 Print Assumptions C11_map_is_struct.
